@@ -983,7 +983,7 @@ def classify(case, obs):
     if kind == 'vol' and 'ws2' in obs and obs.get('ref') is not None:
         # known: after the update every window is still reported once per (new) execution with its length, but windows
         # placed behind a volatile repetition keep the offset they were given at build time
-        if obs['ws2'] != obs['ref'] and _name_len(obs['ws2']) == _name_len(obs['ref']) and obs['ws2r'] == obs['ws2']:
+        if obs['ws2'] != obs['ref'] and _name_len(obs['ws2']) == _name_len(obs['ref']) and obs.get('ws2r') in (None, obs['ws2']):
             return 'volatile-update-stale-offsets'
     return None
 
@@ -994,7 +994,7 @@ def py_spec(case, obs):
         return 'plotting._render_loop reports other measurement windows than Loop.get_measurement_windows()'
     if 'wsp' in obs and obs['wsp'] != obs['ws']:
         return 'plotting.render(..., render_measurements=True)[2] differs from Loop.get_measurement_windows()'
-    if case['kind'] == 'vol' and case.get('side') == 'corr' and 'ws2r' in obs and obs['ws2r'] != obs['ws2']:
+    if case['kind'] == 'vol' and case.get('side') == 'corr' and obs.get('ws2r') is not None and obs['ws2r'] != obs['ws2']:
         return 'after a volatile update plotting reports other windows than Loop.get_measurement_windows()'
     if case['kind'] == 'flat' and case.get('side') != 'corr':
         v = X.flat_verdict(case, obs)
